@@ -3,13 +3,14 @@ import SgModel.Model.Route
 /-!
 Driver for the routing model (C23).  Requests (one per line):
 
-  render <items>   -> ok <valid 0|1> <hex text> <hasWriteClause> <routeNew> <legacyResp> <legacyHttp>
-  route  <hex>     -> ok <routeNew> <legacyResp> <legacyHttp>
+  render <lead> <items> -> ok <valid 0|1> <hex text> <hasWriteClause> <routeNew> <legacyResp> <legacyHttp> <prefix> <executesWrite> <routePlanVeto>
+  route  <hex>     -> ok <routeNew> <legacyResp> <legacyHttp> <prefix> <executesWrite> <routePlanVeto>
+  lead  := (s|t|l|c)* or -    (whitespace before the statement)      prefix := n | e | p
   spec <hasWrite> <pre> <engOut> <engPost> <respOut> <respPost> <respRefused> <httpOut> <httpPost> <httpRefused>
                    -> ok | viol <clause number>
 
   items := item(,item)*        item := <tok>:<sep>
-  tok   := W<hex> | S<2 hex digits of the delimiter><hex or -> | Y<2 hex digits>
+  tok   := W<hex> | S<2 hex digits of the delimiter><hex or -> | Y<2 hex digits> | L<hex or -> (// comment) | B<hex or -> (/* comment */)
   sep   := n | s | t | l | c          (none, space, tab, LF, CRLF)
   text is ASCII, hex-encoded; observations are opaque space-free strings compared for equality.
 -/
@@ -37,7 +38,15 @@ def parseTok? (s : String) : Option Tok :=
     match charsOfHex? (body.take 2).toString, charsOfHex? (body.drop 2).toString with
     | some [q], some cs => some (.str q cs)
     | _, _ => none
+  else if s.startsWith "L" then (charsOfHex? body).map .lineComment
+  else if s.startsWith "B" then (charsOfHex? body).map .blockComment
   else none
+
+def parseLead? (s : String) : Option (List Sep) :=
+  if s == "-" then some [] else s.toList.mapM (fun c => parseSep? (String.singleton c))
+
+def prefixLetter : Prefix → String
+  | .none => "n" | .explain => "e" | .profile => "p"
 
 def parseItem? (s : String) : Option (Tok × Sep) :=
   match s.splitOn ":" with
@@ -52,13 +61,13 @@ def parseBit? (s : String) : Option Bool :=
 
 def handle (_ : Unit) (line : String) : Unit × String :=
   match tokens line with
-  | ["render", items] => match parseItems? items with
-      | some xs =>
-          let t := render xs
-          ((), s!"ok {bit (valid xs)} {hexOfChars t} {bit (hasWriteClause xs)} {bit (routeNew t)} {bit (routeLegacyResp t)} {bit (routeLegacyHttp t)}")
-      | none => ((), "bad-op")
+  | ["render", lead, items] => match parseLead? lead, parseItems? items with
+      | some l, some xs =>
+          let t := renderL l xs
+          ((), s!"ok {bit (valid xs)} {hexOfChars t} {bit (hasWriteClause xs)} {bit (routeNew t)} {bit (routeLegacyResp t)} {bit (routeLegacyHttp t)} {prefixLetter (planPrefix t)} {bit (executesWrite t)} {bit (routePlanVeto t)}")
+      | _, _ => ((), "bad-op")
   | ["route", hx] => match charsOfHex? hx with
-      | some t => ((), s!"ok {bit (routeNew t)} {bit (routeLegacyResp t)} {bit (routeLegacyHttp t)}")
+      | some t => ((), s!"ok {bit (routeNew t)} {bit (routeLegacyResp t)} {bit (routeLegacyHttp t)} {prefixLetter (planPrefix t)} {bit (executesWrite t)} {bit (routePlanVeto t)}")
       | none => ((), "bad-op")
   | ["spec", hw, pre, eo, ep, ro, rp, rr, ho, hp, hr] =>
       match parseBit? hw, parseBit? rr, parseBit? hr with
